@@ -240,16 +240,29 @@ def r_cert(A, ctx, scope, rule="R-CERT", clauses=("max", "all", "intercept")):
                     for c in ast.walk(a.value):
                         if isinstance(c, ast.Call) and ast.unparse(c.func) in ("np.abs", "abs", "np.absolute") and c.args:
                             for inner in ast.walk(c.args[0]):
+                                fname = ast.unparse(inner.func) if isinstance(inner, ast.Call) else ""
                                 red = isinstance(inner, ast.Call) and (
-                                    ast.unparse(inner.func) in ("np.max", "np.min", "np.amax", "np.amin")
+                                    fname in ("np.max", "np.min", "np.amax", "np.amin")
                                     or (isinstance(inner.func, ast.Attribute) and inner.func.attr in ("max", "min")
-                                        and not ast.unparse(inner.func).startswith("np."))
-                                    or (ast.unparse(inner.func) in ("max", "min") and len(inner.args) == 1))
-                                if not red:
+                                        and not fname.startswith("np."))
+                                    or (fname in ("max", "min") and len(inner.args) == 1))
+                                # a sum / mean of per-task steps cancels opposite signs (a sum of the
+                                # per-sample raw gradient IS the intercept gradient: not concerned)
+                                red_sum = isinstance(inner, ast.Call) and (
+                                    fname in ("np.sum", "np.mean", "sum")
+                                    or (isinstance(inner.func, ast.Attribute) and inner.func.attr in ("sum", "mean")
+                                        and not fname.startswith("np.")))
+                                if not red and not red_sum:
                                     continue
-                                touches = (names_in(inner) & step_names) or any(
-                                    _slot_call(flow, f, cc, "DATAFIT", {"intercept_update_step", "raw_grad"})
-                                    for cc in ast.walk(inner))
+                                slots = {"intercept_update_step"} if red_sum and not red else \
+                                    {"intercept_update_step", "raw_grad"}
+                                own_steps = {nm for nm in step_names if any(
+                                    isinstance(st2, ast.Assign) and isinstance(st2.targets[0], ast.Name)
+                                    and st2.targets[0].id == nm and any(
+                                        _slot_call(flow, f, cc, "DATAFIT", slots) for cc in ast.walk(st2.value))
+                                    for st2 in ast.walk(f.node))}
+                                touches = (names_in(inner) & own_steps) or any(
+                                    _slot_call(flow, f, cc, "DATAFIT", slots) for cc in ast.walk(inner))
                                 if touches:
                                     n += 1
                                     ctx.ob(rule, f"{f.fq}::intercept-abs-order", False,
